@@ -1,9 +1,8 @@
 (* C08/Properties.v — RADIUS messages take effect only when authenticated with the shared secret.
    Every theorem quantifies over the hash function [md5raw] (MD5 is an argument, not an axiom), over all
    datagrams, configurations and histories.  Flag records: [repaired] = every repair in place; [head] = what
-   /repo HEAD implements (the four committed C08 fixes; NOT the Event-Timestamp requirement of
-   fixes/C08_require_event_timestamp.patch and NOT the duplicate detection of
-   fixes/C08_coa_duplicate_detection.patch — both recorded as known findings).  Theorems that do not depend on that requirement are
+   /repo HEAD implements (the five committed C08 fixes; NOT the Event-Timestamp requirement of
+   fixes/C08_require_event_timestamp.patch — the one finding still recorded as known).  Theorems that do not depend on that requirement are
    stated for every flag record with the relevant repair on, so they cover both.  Each [_refuted] lemma shows
    that the statement fails when the named repair is off. *)
 From OV Require Import Common.Base C08.Model C08.Proofs.
@@ -301,10 +300,10 @@ Proof.
 Qed.
 Print Assumptions C08_disconnect_window_refuted.
 
-(* Single execution (duplicate detection, fixes/C08_coa_duplicate_detection.patch; [f_dedup]).  Over any history of
+(* Single execution (duplicate detection, committed in 3a9d01d; [f_dedup] — true in [head] and [repaired]).  Over any history of
    datagrams reaching the listener: two datagrams with the same key — same client secret, same code, identifier,
    length and Request Authenticator, i.e. byte-identical requests unless MD5 collides — do not both take
-   effect; the later one is answered with the cached reply.  Holds for [repaired] (and any flags with f_dedup). *)
+   effect; the later one is answered with the cached reply. *)
 Theorem C08_coa_single_execution :
   forall md5raw fl, f_dedup fl = true ->
   forall cfg ins seen j1 j2 i1 i2 o1 o2 key,
@@ -324,32 +323,35 @@ Definition ex_coa_b : bytes := sign_req [107] [43; 7; 0; 36] [1; 4; 97; 108; 27;
 Definition inp (now : Z) (raw : bytes) : coa_input := (now, 2130706434, 0, raw).
 
 Example C08_coa_single_execution_nonvacuous :
+  f_dedup head = true /\
+  map effect (coa_run toy head ex_cfg [] [inp 1100 ex_dm_user; inp 1200 ex_dm_user])
+  = [Some (EvTerminate (3, [97; 108])); None] /\
   map effect (coa_run toy repaired ex_cfg [] [inp 1100 ex_dm_user; inp 1200 ex_dm_user])
   = [Some (EvTerminate (3, [97; 108])); None] /\
   map effect (coa_run toy repaired ex_cfg [] [inp 1100 ex_coa_a; inp 1150 ex_coa_b; inp 1200 ex_coa_a])
   = [Some (EvMutation (3, [97; 108]) [(k_session_timeout, [51; 54; 48; 48])]);
      Some (EvMutation (3, [97; 108]) [(k_session_timeout, [54; 48])]); None].
-Proof. vm_compute. split; reflexivity. Qed.
+Proof. vm_compute. repeat split; reflexivity. Qed.
 Print Assumptions C08_coa_single_execution_nonvacuous.
 
-(* /repo HEAD has no duplicate detection (known finding coa-duplicate-request-reexecuted).  Two consequences that
-   are NOT idempotent: (a) a Disconnect-Request that names the subscriber by User-Name (or Framed-IP-Address),
+(* Before commit 3a9d01d the listener had no duplicate detection ([pre_dedup]; finding coa-duplicate-request-reexecuted,
+   fixed).  Two consequences that were NOT idempotent: (a) a Disconnect-Request that names the subscriber by User-Name (or Framed-IP-Address),
    replayed inside the window, publishes a second terminate event for that name — whatever session carries
    the name by then, e.g. the subscriber's NEW session, is torn down; (b) an older CoA replayed after a newer
    one publishes the older delta again and thereby reverts the newer change. *)
-Lemma C08_head_replayed_disconnect_reexecuted :
-  map effect (coa_run toy head ex_cfg [] [inp 1100 ex_dm_user; inp 1200 ex_dm_user])
+Lemma C08_replayed_disconnect_reexecuted_refuted :
+  map effect (coa_run toy pre_dedup ex_cfg [] [inp 1100 ex_dm_user; inp 1200 ex_dm_user])
   = [Some (EvTerminate (3, [97; 108])); Some (EvTerminate (3, [97; 108]))].
 Proof. vm_compute. reflexivity. Qed.
-Print Assumptions C08_head_replayed_disconnect_reexecuted.
+Print Assumptions C08_replayed_disconnect_reexecuted_refuted.
 
-Lemma C08_head_replayed_older_coa_reverts_newer :
-  map effect (coa_run toy head ex_cfg [] [inp 1100 ex_coa_a; inp 1150 ex_coa_b; inp 1200 ex_coa_a])
+Lemma C08_replayed_older_coa_reverts_newer_refuted :
+  map effect (coa_run toy pre_dedup ex_cfg [] [inp 1100 ex_coa_a; inp 1150 ex_coa_b; inp 1200 ex_coa_a])
   = [Some (EvMutation (3, [97; 108]) [(k_session_timeout, [51; 54; 48; 48])]);
      Some (EvMutation (3, [97; 108]) [(k_session_timeout, [54; 48])]);
      Some (EvMutation (3, [97; 108]) [(k_session_timeout, [51; 54; 48; 48])])].
 Proof. vm_compute. reflexivity. Qed.
-Print Assumptions C08_head_replayed_older_coa_reverts_newer.
+Print Assumptions C08_replayed_older_coa_reverts_newer_refuted.
 
 (* ---------------------------------------------------------------------------------------------
    3. A CoA changes only documented mutable attributes.  The attribute delta of a published mutation is
@@ -358,7 +360,7 @@ Print Assumptions C08_head_replayed_older_coa_reverts_newer.
    resolved from the identification attributes of the packet alone.  A Disconnect takes effect only when the
    packet carries nothing but identification attributes. *)
 Theorem C08_coa_mutable_only :
-  forall md5raw tsr dd cfg now src bus raw e,   (* flt true true = repaired, flt false false = head *)
+  forall md5raw tsr dd cfg now src bus raw e,   (* flt true true = repaired, flt false true = head *)
     effect (coa_step md5raw (flt tsr dd) cfg now src bus raw) = Some e ->
     exists p, parse raw = Some p /\
       match e with
